@@ -491,6 +491,24 @@ def st_models(fields):
     def mem_swap(ex, st, callee, args, ty):
         return mirsmt.model_mem_swap(ex, st, callee, args, ty)
 
+    def vec_clone_from(ex, st, callee, args, ty):
+        # truncates / overwrites / extends in place while cloning elements (caller code): afterwards the
+        # length is the source's; if a clone panics the length is anything in between
+        r = args[0]
+        cur = val_of(r)
+        src = val_of(args[1])
+        newlen = src.len if isinstance(src, Slice) else st.sym.int("srclen")
+        mid = st.sym.int("midlen")
+        s2 = st.fork()
+        s2.events.append(("caller", "<T as Clone>::clone in Vec::clone_from"))
+        # the unwind exit: write the partial length into the forked state's receiver
+        tup2 = s2.roots.get("self").cell.v
+        for i, f in enumerate(tup2.fs):
+            if isinstance(f, Slice):
+                tup2.fs[i] = Slice(f.buf, f.off, mid)
+        mirsmt.store_through(r, Slice(cur.buf, cur.off, newlen))
+        return [(st, Tup([]), "return", ""), (s2, None, "unwind", "caller code <T as Clone>::clone in Vec::clone_from")]
+
     def shrink(ex, st, callee, args, ty):
         return m_ret(st, Tup([]))
 
@@ -503,6 +521,7 @@ def st_models(fields):
         (r"Vec::<.*>::drain::<", drain),
         (r"^core::mem::swap::<", mem_swap),
         (r"Vec::<.*>::fill$|slice::<impl \[.*\]>::fill$", caller_code),
+        (r"<Vec<.*> as Clone>::clone_from$|Vec::<.*>::clone_from$", vec_clone_from),
         (NO_UNWIND, no_unwind),
     ]
 
